@@ -378,6 +378,60 @@ theorem c08_arena_refines_value_model (C : Cipher) (A : AEAD) (m : Mem) (dst src
     have := gcmDecryptA_refines A m dst src key iv ad hd hs hopenlen hk hn hi hsz hsrc
     exact ⟨fun p hp => ⟨(this.1 p hp).1, (this.1 p hp).2.1⟩, fun h => (this.2 h).1⟩
 
+open Golib.C08.Arena in
+/-- BUFFER LEVEL, the PKCS#7 helpers, for EVERY block size (any `int`, so 1..255 in particular) and
+every outcome: `PKCS7Padding` can write only into the spare capacity of `data` —
+`[off+len, off+cap)`: the data itself and everything outside the slice's capacity keep their
+content — and the slice it returns (in place when the padding fits the capacity, a new array
+otherwise) holds exactly the value-level result; `PKCS7UnPadding` writes nothing and returns a
+prefix window of `data` holding the value-level result.  Tied through the driver: op `padcap`
+(answered by THIS model) for every block size 1..255 with the padding fitting exactly / one byte
+short / no spare / plenty. -/
+theorem c08_pkcs7_buffer_level (m : Mem) (data : Win) (b : Int) (hd : data.wf m) :
+    WritesWithin m (pkcs7PaddingA m data b).1 (data.off + data.len) (data.off + data.cap) ∧
+    (pkcs7PaddingA m data b).1.rd data = m.rd data ∧
+    (match (pkcs7PaddingA m data b).2, pkcs7Padding (m.rd data) b with
+      | .ok sl, .ok x => sl.content (pkcs7PaddingA m data b).1 = x
+      | .err e, .err e' => e = e'
+      | .panic, .panic => True
+      | _, _ => False) ∧
+    (pkcs7UnPaddingPubA m data b).1 = m ∧
+    (∀ w, (pkcs7UnPaddingPubA m data b).2 = .ok w →
+      w.off = data.off ∧ w.len ≤ data.len ∧ pkcs7UnPaddingPub (m.rd data) b = .ok (m.rd w)) := by
+  have h1 := pkcs7PaddingA_spec m data b hd
+  have h2 := pkcs7UnPaddingPubA_spec m data b (by obtain ⟨a, c⟩ := hd; omega)
+  exact ⟨h1.1, h1.2.1, h1.2.2, h2.1, h2.2⟩
+
+open Golib.C08.Arena in
+/-- ERROR PATHS at buffer level.  (1) A call rejected for its arguments (bad key size, bad
+ciphertext length, empty nonce, input shorter than the tag) writes NOTHING.  (2) `AESCBCDecrypt`
+in the documented layouts leaves in `dst` the full CBC decryption of the ciphertext WHATEVER the
+outcome — in particular after "invalid padding" the decrypted text, bad padding included, stays
+in `dst` (and nothing outside `dst` changed: `c08_writes_within_dst`).  (3) `AESGCMDecrypt` whose
+authentication fails leaves ZEROS in `dst`: neither its old content nor unauthenticated
+plaintext.  Tied through the driver: ops `cbcdecleft` / `gcmdecleft` (answered by the arena model)
+print what `dst` holds after every outcome. -/
+theorem c08_failed_decrypt_leaves (C : Cipher) (A : AEAD) (m : Mem) (dst src key iv ad : Win)
+    (hd : dst.wf m) (hs : src.off + src.len ≤ m.cells.length) (hi : iv.off + iv.len ≤ m.cells.length)
+    (hsrc : disjoint dst src ∨ src.off = dst.off) :
+    (((src.len < 16 ∨ src.len % 16 ≠ 0 ∨ keyOK (m.rd key) = false) →
+        (aesCBCDecryptA C m dst src key iv).1 = m) ∧
+      ((keyOK (m.rd key) = false ∨ iv.len = 0 ∨ src.len < 16) →
+        (aesGCMDecryptA A m dst src key iv ad).1 = m)) ∧
+    (keyOK (m.rd key) = true → (∀ x, x.length = 16 → (C.D (m.rd key) x).length = 16) → iv.len = 16 →
+      16 ≤ src.len → src.len % 16 = 0 → dst.len = src.len →
+      (aesCBCDecryptA C m dst src key iv).1.rd dst = cbcDecrypt (C.D (m.rd key)) (m.rd iv) (m.rd src)) ∧
+    (keyOK (m.rd key) = true → 0 < iv.len → dst.len + gcmTagSize = src.len →
+      A.openF (m.rd key) (m.rd iv) (m.rd src) (m.rd ad) = none →
+      (aesGCMDecryptA A m dst src key iv ad).2 = .err "open" ∧
+      (aesGCMDecryptA A m dst src key iv ad).1.rd dst = List.replicate dst.len 0) := by
+  have hr := rejected_calls_write_nothing C A m dst src key iv ad
+  refine ⟨⟨fun h => (hr.1 h).1, fun h => (hr.2.2.2 h).1⟩, ?_, ?_⟩
+  · intro hk hD h16 hge hmul hsz
+    exact (cbcDecryptA_refines C m dst src key iv .inplace hd hs hi hD hk h16 hge hmul hsz hsrc (Or.inr rfl)).1
+  · intro hk hn hsz ho
+    exact gcmDecryptA_failed_leaves_zeros A m dst src key iv ad hd hk hn hsz hsrc ho
+
 /-- The facts the model hard-codes, against `Golib/Gen/FactsC08.lean`, which the go/ast
 extractor regenerates from `cryptz/aes.go` on every run: the constants, the size of the
 padding table, the bound of the `init()` loop, and that the model's table is what that loop
